@@ -697,30 +697,33 @@ func (ss *mergeHandlerSession) handleSendCountMsg(msg *mergeHandlerSessionSendMs
 
 type mergeHandlerSessionOKState struct {
 	size int
-	// map[eventID][chIdx]msg
-	s map[string][]*ServerOKMsg
+	// map[eventID]number of submissions still awaiting their merged reply
+	pending map[string]int
+	// map[eventID][chIdx]replies not merged yet, oldest first
+	s map[string][][]*ServerOKMsg
 }
 
 func newMergeHandlerSessionOKState(size int) *mergeHandlerSessionOKState {
 	return &mergeHandlerSessionOKState{
-		size: size,
-		s:    make(map[string][]*ServerOKMsg),
+		size:    size,
+		pending: make(map[string]int),
+		s:       make(map[string][][]*ServerOKMsg),
 	}
 }
 
 func (stat *mergeHandlerSessionOKState) TrySetEventID(eventID string) {
-	if len(stat.s[eventID]) > 0 {
-		return
+	if len(stat.s[eventID]) == 0 {
+		stat.s[eventID] = make([][]*ServerOKMsg, stat.size)
 	}
-	stat.s[eventID] = make([]*ServerOKMsg, stat.size)
+	stat.pending[eventID]++
 }
 
 func (stat *mergeHandlerSessionOKState) SetMsg(chIdx int, msg *ServerOKMsg) {
 	msgs := stat.s[msg.EventID]
-	if len(msgs) == 0 {
+	if len(msgs) == 0 || len(msgs[chIdx]) >= stat.pending[msg.EventID] {
 		return
 	}
-	msgs[chIdx] = msg
+	msgs[chIdx] = append(msgs[chIdx], msg)
 }
 
 func (stat *mergeHandlerSessionOKState) Ready(eventID string) bool {
@@ -728,7 +731,7 @@ func (stat *mergeHandlerSessionOKState) Ready(eventID string) bool {
 	if len(msgs) == 0 {
 		return false
 	}
-	return !slices.Contains(msgs, nil)
+	return !slices.ContainsFunc(msgs, func(q []*ServerOKMsg) bool { return len(q) == 0 })
 }
 
 func (stat *mergeHandlerSessionOKState) Msg(eventID string) *ServerOKMsg {
@@ -738,7 +741,8 @@ func (stat *mergeHandlerSessionOKState) Msg(eventID string) *ServerOKMsg {
 	}
 
 	var oks, ngs []*ServerOKMsg
-	for _, msg := range msgs {
+	for _, q := range msgs {
+		msg := q[0]
 		if msg.Accepted {
 			oks = append(oks, msg)
 		} else {
@@ -762,7 +766,15 @@ func joinServerOKMsgs(msgs ...*ServerOKMsg) *ServerOKMsg {
 }
 
 func (stat *mergeHandlerSessionOKState) ClearEventID(eventID string) {
-	delete(stat.s, eventID)
+	msgs := stat.s[eventID]
+	for i := range msgs {
+		msgs[i] = msgs[i][1:]
+	}
+	stat.pending[eventID]--
+	if stat.pending[eventID] <= 0 {
+		delete(stat.pending, eventID)
+		delete(stat.s, eventID)
+	}
 }
 
 type mergeHandlerSessionReqState struct {
@@ -867,27 +879,33 @@ func (stat *mergeHandlerSessionReqState) ClearSubID(subID string) {
 
 type mergeHandlerSessionCountState struct {
 	size int
-	// map[subID][chIDx]msg
-	counts map[string][]*ServerCountMsg
+	// map[subID]number of COUNT requests still awaiting their merged reply
+	pending map[string]int
+	// map[subID][chIDx]replies not merged yet, oldest first
+	counts map[string][][]*ServerCountMsg
 }
 
 func newMergeHandlerSessionCountState(size int) *mergeHandlerSessionCountState {
 	return &mergeHandlerSessionCountState{
-		size:   size,
-		counts: make(map[string][]*ServerCountMsg),
+		size:    size,
+		pending: make(map[string]int),
+		counts:  make(map[string][][]*ServerCountMsg),
 	}
 }
 
 func (stat *mergeHandlerSessionCountState) SetSubID(subID string) {
-	stat.counts[subID] = make([]*ServerCountMsg, stat.size)
+	if len(stat.counts[subID]) == 0 {
+		stat.counts[subID] = make([][]*ServerCountMsg, stat.size)
+	}
+	stat.pending[subID]++
 }
 
 func (stat *mergeHandlerSessionCountState) SetCountMsg(chIdx int, msg *ServerCountMsg) {
 	counts := stat.counts[msg.SubscriptionID]
-	if len(counts) == 0 {
+	if len(counts) == 0 || len(counts[chIdx]) >= stat.pending[msg.SubscriptionID] {
 		return
 	}
-	counts[chIdx] = msg
+	counts[chIdx] = append(counts[chIdx], msg)
 }
 
 func (stat *mergeHandlerSessionCountState) Ready(subID string, chIdx int) bool {
@@ -895,18 +913,30 @@ func (stat *mergeHandlerSessionCountState) Ready(subID string, chIdx int) bool {
 	if len(counts) == 0 {
 		return false
 	}
-	return !slices.Contains(counts, nil)
+	return !slices.ContainsFunc(counts, func(q []*ServerCountMsg) bool { return len(q) == 0 })
 }
 
 func (stat *mergeHandlerSessionCountState) Msg(subID string) *ServerCountMsg {
+	var heads []*ServerCountMsg
+	for _, q := range stat.counts[subID] {
+		heads = append(heads, q[0])
+	}
 	return slices.MaxFunc(
-		stat.counts[subID],
+		heads,
 		func(a, b *ServerCountMsg) int { return cmp.Compare(a.Count, b.Count) },
 	)
 }
 
 func (stat *mergeHandlerSessionCountState) ClearSubID(subID string) {
-	delete(stat.counts, subID)
+	counts := stat.counts[subID]
+	for i := range counts {
+		counts[i] = counts[i][1:]
+	}
+	stat.pending[subID]--
+	if stat.pending[subID] <= 0 {
+		delete(stat.pending, subID)
+		delete(stat.counts, subID)
+	}
 }
 
 type Middleware func(Handler) Handler
